@@ -30,19 +30,23 @@ CHECKS = {
                 note="trusted: the abstraction (ghost tags instead of numbers), sanitizers; Adj facade and LocalNetwork object are not yet modelled "
                      "(network level is covered relationally by other properties)", ref="8/C04"),
     "C11": dict(cat="model_checking", technique="TLC model checking of grammar x parser-automaton product + replay of all emitted documents under ASan/UBSan + mutation sweep",
-                text="GkfModel.tla is the product of the documented grammar (xsd) and the (state,tag) automaton transcribed from GKFparser; TLC checks "
-                     "Inclusion (grammar-valid prefixes never reach the error state), ErrorHasLine (no way into the error state bypasses error()), "
-                     "ErrorAbsorbing, Completeness and Exactness (only named liberal deviations) over all event sequences up to the bound. Every emitted "
-                     "sequence is materialised (one event per line) and run through the sanitizer build of gama-local: accepted/rejected and the error "
-                     "line must equal the model's verdict. Deterministic truncations/replacements/deletions of repository inputs must terminate without "
-                     "sanitizer report and a refusal must name a line inside the document.",
+                text="(1) GkfModel.tla: product of the documented element grammar and a transcription of GKFparser's (state, tag) automaton, model "
+                     "checked by TLC (Inclusion, ErrorHasLine, StopOnlyAtEnd, Completeness, Exactness up to named deviations, ErrorAbsorbing); every "
+                     "event sequence up to the bound is materialised and parsed by gama-local under ASan+UBSan: verdict and error line must be the "
+                     "model's. (2) GkfClusters.tla: sequences of clusters with well- and malformed covariance matrices, the verdict of a cluster is "
+                     "independent of its neighbours. (3) GkfAttrs.tla: the attribute schema of every element (type, required) x ways of corrupting one "
+                     "or two elements (missing, bad number, text, empty, bad enumeration value, unknown attribute, value outside its domain): refused at "
+                     "the line of the first corrupted element, or accepted under the named deviations D1-D3; 5 384 documents in the quick tier. (4) "
+                     "deterministic mutation / truncation sweep of repository inputs. ",
                 note="trusted: ASan/UBSan/timeouts as observers of memory safety and termination; expat for well-formedness errors; attribute-level "
                      "and literal-level grammar, chunked delivery and the g3 / results parsers are in the thorough tier only as far as implemented", ref="8/C11"),
     "C06": dict(cat="exploration", technique="TLC-generated survey sessions (SurveySession.tla) replayed on gama-local; truth law adjusted = generating coordinates",
-                text="SurveySession.tla builds networks from templates in which every unknown point is determined by construction, in every axes/angle "
-                     "convention and circle orientation, and emits sessions with the edits OmitApprox, PerturbApprox, AttachHeights, AddConsistentObs, "
-                     "SetAlgorithm, Translate. Observation values are computed from the true lattice coordinates; after every step gama-local must "
-                     "return the generating coordinates (2e-6 m) with zero residuals and must not drop points.",
+                text="SurveySession.tla builds networks from 12 templates (intersections, traverse, trilateration, polar 3-D, vectors, levelling, free "
+                     "stations, free networks, mixed vector / slope-distance network) in all axes conventions and circle orientations, with observation "
+                     "values computed from the true lattice coordinates. Truth law: adjusted = generating coordinates and zero residuals with "
+                     "approximate coordinates given, omitted (all documented subsets) or perturbed by 30 / 100 / 600 mm (distinct per point and "
+                     "coordinate), with instrument / target heights (both, one-sided, above and below tol-abs), with further consistent observations, "
+                     "for all four algorithms; for noisy observations the result must not depend on the perturbed approximate coordinates. ",
                 note="trusted: textbook observation formulas in tools/session.py; completeness of approximate-coordinate strategies is claimed only "
                      "for the template geometries (polar, intersection, trilateration, traverse, levelling, vectors)", ref="8/C06"),
     "C07": dict(cat="exploration", technique="TLC-generated edit sessions replayed on gama-local; per-edit laws checked on results projected to the physical frame",
@@ -72,10 +76,12 @@ CHECKS = {
                      "corrections of constrained points sum to zero and have zero moment when no azimuth fixes the rotation.",
                 note="orthogonality is asserted on the final re-linearised solution to 5e-6 m; 3-D free networks are not generated", ref="8/C08"),
     "C13": dict(cat="exploration", technique="TLC-generated sessions ending in ExportReimport(n); abstract-survey equality + result equality",
-                text="Sessions of SurveySession.tla apply an edit that changes units, instrument heights, axes/angle sense, distance ends or ids and then "
-                     "ExportReimport with n = 1..3 rounds: each exported file is read back by an independent reader and must describe the same abstract "
-                     "survey (status of points, observations with values, sigmas, covariance matrices, heights, parameters); adjusting it must give the "
-                     "same result without linearisation iterations.",
+                text="Law ExportReimport of SurveySession.tla: the file written by --export describes the same abstract survey (points and status, "
+                     "observations with values, standard deviations, covariance matrices, instrument / target heights, extern keys, parameters incl. "
+                     "latitude, ellipsoid, algorithm, cov-band) with approximate := adjusted coordinates, and adjusting it gives the same result without "
+                     "further linearization iterations; applied 1..3 times, after edits that change units, heights, axes, ids or use optional forms of "
+                     "the input language (InputFeatures: split observed coordinates, <dh> with dist, directions and angles with heights, extern, "
+                     "ellipsoid parameters); also exported without any other output. ",
                 note="trusted: ElementTree reader in tools/checks/c13.py; special characters in ids/descriptions belong to C12", ref="8/C13"),
     "C20": dict(cat="exploration", technique="exact admissibility (TLC null space) at the API + TLC-generated ill-posed sessions x 4 algorithms",
                 text="API: problems whose regularisation subset does not resolve the defect (decided exactly by rank of the restricted integer null "
